@@ -33,11 +33,12 @@ META = {
                   "selection and StreamSink's parent-inventory refill + correspondence on real repositories"),
     "level_text": ("partial (P-spec with a proved set-algebra core).  THEOREMS (every history, ghosts and merges, any target "
                    "content, both search modes, both text selections): which revisions each search requests; the two "
-                   "searches agree on a target without fillable ghosts; after a successful fetch every ancestor the "
+                   "searches agree; after a successful fetch every ancestor the "
                    "source has is visible and the target is closed again; nothing is lost and a failing fetch changes "
                    "nothing; a second fetch requests and changes nothing; every copied revision arrives with its "
-                   "inventory and all texts it references; and the refutation of completeness for find_ghosts=False "
-                   "into a target with a fillable ghost (reproduced on the real code: finding C03-walk-unfilled-ghost). "
+                   "inventory and all texts it references -- also for find_ghosts=False into a target with a fillable ghost "
+                   "(former finding C03-walk-unfilled-ghost, repaired by /repo be5f5d4; the old search is kept only as the "
+                   "regression statement C03_old_walk_unclosed_refuted), and for any batching of the walk (walk_ok). "
                    "CORRESPONDENCE ONLY (not theorems): that the model's record sets are the real ones (compared key by "
                    "key on every run), byte identity of the records = equal testaments and per-file parents, a clean "
                    "check(), unchanged pack-names; the stream wire format, CHK page filtering and serializer conversion "
@@ -45,7 +46,7 @@ META = {
     "level_note": ("Trusted: Coq kernel, vm_compute, the hand model's correspondence (bounded sampling), the inventories "
                    "read back from the real source as the model's description of the history, vcsgraph's breadth-first "
                    "searcher as summarised by missing_walk (exact for searches exhausted in one batch of 50 or closed "
-                   "targets; larger unclosed cases are not generated)."),
+                   "targets; larger unclosed cases are not generated, for them only the walk_ok theorems apply)."),
     "design_ref": "DESIGN.md §5 C03",
     "trusted_base": ["hand model coq/Model/RepoFetch.v of breezy/bzr/vf_repository.py, fetch.py, groupcompress_repo.py, knitpack_repo.py",
                      "coq/Lib/Dag.v as a model of the revision graph",
@@ -70,7 +71,7 @@ def teardown():
     C.teardown()
 
 
-# the finding witness (Theory/RepoFetch.v wit_U): r1 is committed to the source after the target got r0, r2
+# the witness of the former finding (Theory/RepoFetch.v wit_U): r1 is committed to the source after the target got r0, r2
 WIT = {"g": [[], [], [0, 1], [2], [1], [3, 4]], "ch": [[], [], [1], [3], [4], [1]], "late": [1, 4, 5]}
 U_A = {"g": [[], [0], [1], [0], [2, 3], [4, 49], [48, 5], [6]],
        "ch": [[], [1], [3, 5], [4, 6], [1, 7], [5], [], [1, 3, 4]], "late": []}
@@ -84,8 +85,9 @@ def _case(u, sf="2a", tf="2a", sv="local", tv="local", fb=None, seed=(), extra=(
 
 
 def corpus():
-    out = [_case(WIT, seed=[2], fg=False),                 # C03-walk-unfilled-ghost
-           _case(WIT, seed=[2], fg=True),                  # find_ghosts fills it
+    # regression inputs of the former finding C03-walk-unfilled-ghost (fixed by /repo be5f5d4): must pass
+    out = [_case(WIT, seed=[2], fg=False),
+           _case(WIT, seed=[2], fg=True),
            _case(WIT, sf="pack-0.92", tf="pack-0.92", seed=[2], fg=False),
            _case(WIT, seed=[2], fg=False, entry="pull")]
     for sf, tf in (("2a", "2a"), ("pack-0.92", "pack-0.92"), ("pack-0.92", "2a"), ("2a", "pack-0.92")):
@@ -208,25 +210,15 @@ def model_term(case):
 
 # ---- the property itself ----------------------------------------------------------------------------------
 
-def _walk_gap(case, obs):
-    """steps (fetch with find_ghosts=False) where the walk leaves out a revision it reached without
-    passing through a revision the target has: the class of finding C03-walk-unfilled-ghost"""
+def _unclosed_walk(case, obs):
+    """first-step fetch with find_ghosts=False into a target that holds a ghost the source can fill
+    (the class of the former finding C03-walk-unfilled-ghost, repaired by /repo be5f5d4)"""
     g = case["u"]["g"]
-    n = len(g)
     _, late = C.phase1_graph(case["u"])
     zf = C.anc_present(g, late, case.get("fb") or [])
-    out = []
-    state = obs["model"]["pre"]
-    for k, (op, st) in enumerate(zip(case["ops"], obs["model"]["steps"])):
-        vis = set(state[0]) | zf
-        if op[0] == "fetch" and op[3] != "all" and not op[2] and op[1] < n and op[1] not in vis:
-            need = C.reach_avoiding(g, vis, op[1])
-            haves = C.anc_present(g, set(), [op[1]]) & vis
-            behind = C.anc_present(g, set(), haves)
-            if need & behind:
-                out.append(k)
-        state = st[2]
-    return out
+    op = case["ops"][0]
+    vis = set(obs["model"]["pre"][0]) | zf
+    return op[0] == "fetch" and op[3] != "all" and not op[2] and not C.closed(g, vis)
 
 
 def oracle(case, obs):
@@ -284,21 +276,8 @@ def oracle(case, obs):
 
 
 def finding_matches(fid, case, obs, why):
-    if fid != "C03-walk-unfilled-ghost":
-        return False
-    gaps = _walk_gap(case, obs)
-    if not gaps:
-        return False
-    # only the symptoms of that defect, at or after the first affected step
-    for part in why.split("; "):
-        if not part.startswith("step "):
-            return False
-        k = int(part.split(":")[0][5:])
-        if k < gaps[0]:
-            return False
-        if not any(s in part for s in ("missing_required", "unreadable", "check: check() raised KeyError")):
-            return False
-    return True
+    # C03-walk-unfilled-ghost is fixed (/repo be5f5d4): no known finding is excused any more
+    return False
 
 
 def nontrivial(case, obs):
@@ -327,6 +306,6 @@ def distribution(inputs, observations):
             inc("outcome %s" % st[0])
             k = st[1]
             inc("copied " + ("0" if k == 0 else "1-5" if k <= 5 else "6-49" if k < 50 else "50-99" if k < 100 else "100+"))
-            if _walk_gap(c, o):
-                inc("walk leaves a reachable ghost unfilled")
+            if _unclosed_walk(c, o):
+                inc("find_ghosts=False into a target with a fillable ghost")
     return d
